@@ -101,14 +101,32 @@ class _Conn(object):
         return out
 
 
+_NEIGHBOUR_REQUESTS = []
+
+
+def neighbour_decoder():
+    """another server in the same process whose application registered its own request classes on ITS decoder"""
+    from pymodbus.factory import ServerDecoder
+    if not _NEIGHBOUR_REQUESTS:
+        for cls in getattr(ServerDecoder, '_ServerDecoder__function_table'):
+            ns = dict(execute=lambda self, context: self.doException(0x0B), __doc__='neighbour variant')
+            _NEIGHBOUR_REQUESTS.append(type('Neighbour' + cls.__name__, (cls,), ns))
+    d = ServerDecoder()
+    for cls in _NEIGHBOUR_REQUESTS:
+        d.register(cls)
+    return d
+
+
 class Server(object):
     def __init__(self, front, framing, context, broadcast_enable=False, ignore_missing_slaves=False):
         self.front, self.framing, self.context = front, framing, context
+        self.neighbour = neighbour_decoder()
         self.kind = FRONTS[front][0]
         self.escaped = []
         self.flags = dict(broadcast_enable=broadcast_enable, ignore_missing_slaves=ignore_missing_slaves)
         fcls = framers.FRAMERS[framing]
         getattr(self, '_init_' + front.replace('-', '_'))(fcls)
+        neighbour_decoder()
 
     # ------------------------------------------------------------------ sync
     def _stub_sync(self, cls, fcls):
